@@ -1,5 +1,7 @@
 import ZV.Model.C34
 import ZV.Proofs.C34
+import ZV.Proofs.C34Sync
+import ZV.Proofs.C34Gen
 /-!
   C34 — the Close/Write interlock of `tls.Conn` (`activeCall`), for ALL interleavings of the model.
 
@@ -106,5 +108,117 @@ example :
 
 example : runSeq [.handshake, .write, .closeWrite, .write, .close, .write, .close] =
     [.ok, .ok, .ok, .shutdown, .ok, .closed, .closed] := by decide
+
+
+/-! ## The lock / atomic protocol of `tls.Conn` (handshakeMutex, in, out, handshakeStatus)
+
+  Part A — T1 facts: theorems by `decide` over the WHOLE generated table `ZV.C34.Gen` (go/extract/c34 walks every
+  function of package tls with go/ast on each run; a reordering of Lock / Store / flush in the source changes the
+  generated lists and the named theorem stops compiling).
+  Part B — the interleaving semantics `ZV.C34.Sync` (hand-written from the same step lists): invariants and
+  freedom from lock deadlock for EVERY number of threads and EVERY schedule. -/
+
+open Gen in
+/-- (3) every `Lock` in package tls on the three Conn mutexes is immediately followed by `defer Unlock` of the same
+    mutex and there is no other Unlock: every Lock is matched on every path, a mutex is held to the end of the
+    function that locked it. -/
+theorem locks_balanced : Gen.funcs.all Gen.balanced = true := by decide
+
+/-- the may-acquire sets used below are closed under own locks and calls (certificate check) -/
+theorem acq_certificate_closed : Gen.acqClosed = true := by decide
+
+/-- (1) lock order: with handshakeMutex < in < out, every acquisition (own Lock or through a call, transitively)
+    made while a mutex is held goes strictly upwards — with exactly ONE exception: `Conn.Read` holds `in` when it
+    calls handlePostHandshakeMessage → handleRenegotiation, which locks handshakeMutex.  (The syntactic lock graph of
+    tls.Conn is NOT acyclic; `no_lock_deadlock` below shows why the inversion cannot deadlock.) -/
+theorem lock_order_acyclic_except_renegotiation :
+    Gen.badEdges = [(Gen.id_Conn_Read, 1, 0)] := by decide
+
+/-- the `underHM` set (functions only ever called with handshakeMutex held) is justified: none is exported and each
+    call site holds handshakeMutex or is itself in the set; all four handshake implementations are in it. -/
+theorem underHM_certificate_closed :
+    Gen.underHMClosed = true
+    ∧ [Gen.id_Conn_clientHandshake, Gen.id_Conn_serverHandshake, Gen.id_clientHandshakeState_handshake,
+       Gen.id_clientHandshakeStateTLS13_handshake, Gen.id_serverHandshakeState_handshake,
+       Gen.id_serverHandshakeStateTLS13_handshake].all (Gen.underHM.contains ·) = true := by decide
+
+/-- (4a) the ONLY writes to handshakeStatus in package tls: `Store 0` in handleRenegotiation and `Store 1` in the
+    four handshake implementations (no plain access, no other atomic). -/
+theorem flag_store_sites :
+    Gen.flagStores = [(Gen.id_Conn_handleRenegotiation, 0), (Gen.id_clientHandshakeStateTLS13_handshake, 1),
+      (Gen.id_clientHandshakeState_handshake, 1), (Gen.id_serverHandshakeStateTLS13_handshake, 1),
+      (Gen.id_serverHandshakeState_handshake, 1)] := by decide
+
+/-- (4b) handshakeStatus is only stored while handshakeMutex is held. -/
+theorem flag_stored_only_under_handshakeMutex : Gen.storesUnderHM = true := by decide
+
+/-- (4c) in each handshake implementation `Store handshakeStatus 1` comes after the final flush: a flush precedes
+    it, and after it there is no flush, no call and no Lock, only `return nil`. -/
+theorem store_after_final_flush : Gen.storeAfterFinalFlush = true := by decide
+
+/-- (5) renegotiation clears the flag under handshakeMutex and before running the handshake again:
+    handleRenegotiation ends with Lock hM, defer Unlock, Store 0, clientHandshake(). -/
+theorem renegotiation_clears_under_handshakeMutex :
+    ((Gen.rowOf Gen.id_Conn_handleRenegotiation).filter fun e => e != .call Gen.id_Conn_sendAlert
+        && e != .call Gen.id_Conn_readHandshake) =
+      [.lock 0, .deferUnlock 0, .store 0 0, .call Gen.id_Conn_clientHandshake] := by decide
+
+/-- Conn.handshake tests the flag under handshakeMutex BEFORE locking `in` (the gate the model's `hChk` step is). -/
+theorem handshake_gate_order :
+    ((Gen.rowOf Gen.id_Conn_handshake).filter fun e => e != .retNil && e != .flush) =
+      [.lock 0, .deferUnlock 0, .call Gen.id_Conn_handshakeComplete, .lock 1, .deferUnlock 1,
+       .call Gen.id_Conn_clientHandshake, .call Gen.id_Conn_serverHandshake, .call Gen.id_Conn_handshakeComplete] := by
+  decide
+
+/-! ### Part B -/
+
+/-- mutual exclusion: in every reachable state each mutex is held by at most one thread. -/
+theorem mutual_exclusion {s : Sync.State} (h : Sync.Reach s) (m i j : Nat)
+    (hi : Sync.holds m (s.pcs i) = true) (hj : Sync.holds m (s.pcs j) = true) : i = j :=
+  (Sync.reach_inv h).mx m i j hi hj
+
+/-- the inversion is harmless: whenever a Handshake call holding handshakeMutex is about to Lock `in` (it saw no
+    error and the flag clear), NO thread holds `in` — in particular no Read that could ask for handshakeMutex. -/
+theorem handshake_finds_in_free {s : Sync.State} (h : Sync.Reach s) {a : Nat} {r : Bool}
+    (ha : s.pcs a = .hIn r) (b : Nat) : Sync.holds 1 (s.pcs b) = false :=
+  Sync.in_free_at_hIn (Sync.reach_inv h) ha b
+
+/-- (2) NO LOCK DEADLOCK, any number of threads, any schedule: in every reachable state in which some call is in
+    progress, some thread with a call in progress can take a step (so a set of calls can never all be waiting for
+    each other's mutexes). -/
+theorem no_lock_deadlock {s : Sync.State} (h : Sync.Reach s) {i : Nat} (hi : s.pcs i ≠ .idle) :
+    ∃ j s', s.pcs j ≠ .idle ∧ Sync.Step j s s' := by
+  obtain ⟨j, hj, s', hs⟩ := Sync.progress (Sync.reach_inv h) hi
+  exact ⟨j, s', hj, hs⟩
+
+/-- while handshakeMutex is free and a Read is past its gate, the connection is never seen "not complete and not
+    failed": ConnectionState (which reads the flag under handshakeMutex) cannot observe HandshakeComplete = false
+    between two successful handshakes. -/
+theorem settled_while_reading {s : Sync.State} (h : Sync.Reach s) {i : Nat} (hi : Sync.inR (s.pcs i) = true)
+    (hfree : ∀ j, Sync.holds 0 (s.pcs j) = false) : s.flag = true ∨ s.herr = true := by
+  cases hf : s.flag
+  · cases he : s.herr
+    · exfalso
+      rcases (Sync.reach_inv h).rd (by rw [hf, he]; rfl) with hn | ⟨k, hk⟩
+      · rw [hn i] at hi; cases hi
+      · have := Sync.inG_hm hk; rw [hfree k] at this; cases this
+    · exact Or.inr rfl
+  · exact Or.inl rfl
+
+/-- the flag is only changed by a thread holding handshakeMutex (model counterpart of (4b)/(5)). -/
+theorem model_flag_changes_under_handshakeMutex {pc pc' : Sync.Pc} {f e f' e' : Bool}
+    (h : Sync.T pc f e pc' f' e') (hne : f' ≠ f ∨ e' ≠ e) : Sync.holds 0 pc = true := by
+  rcases Sync.T_mod h with h0 | ⟨h1, h2⟩
+  · exact h0
+  · rcases hne with h | h
+    · exact absurd h1 h
+    · exact absurd h2 h
+
+-- hypotheses satisfiable: a reachable state with a call in progress (thread 0 has entered Handshake from Read)
+example : ∃ s, Sync.Reach s ∧ s.pcs 0 ≠ .idle :=
+  ⟨{ flag := false, herr := false, pcs := Sync.setPc Sync.init.pcs 0 (.hWant true) },
+   .step 0 .init ⟨.hWant true, false, false, .startH true false false,
+     (by intro m _ h; rcases m with _ | _ | _ | m <;> simp [Sync.holds] at h), rfl⟩,
+   by simp [Sync.setPc]⟩
 
 end ZV.C34
